@@ -151,7 +151,7 @@ func sortedNodes(m map[*sNode]int) []*sNode {
 
 // genTable: root, @t1, @t2 (any kind, containers preferred), @s1 / @s2 (scalar types that own a breakable rule),
 // @o1 / @o2 (object types with at least one property; @o2 carries additionalProperties), @a0 (an object type that
-// inherits from @o1 in half of the tables). The root uses every type.
+// inherits from @o1 in half of the tables). The root uses every type and inherits from @o2 in half of the tables.
 // trefs: the literal examples annotated with a reference to @s1 / @s2.
 func genTable(r *rand.Rand) (g *vgen, trefs map[string][]*sNode) {
 	g = &vgen{r: r, types: map[string]*sNode{}, order: []string{"root", "@t1", "@t2", "@s1", "@s2", "@o1", "@o2", "@a0"}}
@@ -193,6 +193,9 @@ func genTable(r *rand.Rand) (g *vgen, trefs map[string][]*sNode) {
 		g.types[g.order[lvl]] = t
 	}
 	g.useAll()
+	if r.Intn(2) == 0 { // the root inherits the properties of @o2 (its own keys are different ones)
+		g.types["root"].extra = append(g.types["root"].extra, [2]string{"allOf", []string{`"@o2"`, `["@o2"]`}[r.Intn(2)]})
+	}
 	// literal examples annotated with a reference to @s1 / @s2 (type rule or `or` list) inside the containers
 	trefs = map[string][]*sNode{}
 	for _, nm := range g.order[:3] {
@@ -454,6 +457,8 @@ func (g *vgen) canHost(victim string, d defect) bool {
 		return len(objs) > 0
 	case victim == "@s1" || victim == "@s2":
 		return false // the literal examples of the referring nodes are generated from these types
+	case victim == "@o1" || victim == "@o2":
+		return len(objs) > 0 // never replaced as a whole: they are allOf parents
 	case victim == "root":
 		return true // an object by construction
 	}
@@ -478,7 +483,8 @@ func (g *vgen) place(victim string, d defect) (pr *sProp, site string) {
 		o.props = append(o.props, pr)
 		return pr, "property"
 	}
-	whole := d.rawKey == "" && victim != "@s1" && victim != "@s2" && (victim != "root" || (d.node.kind == "obj")) && (len(objs) == 0 || r.Intn(4) == 0)
+	// @o1 / @o2 stay objects: other types (and the root) inherit from them
+	whole := d.rawKey == "" && victim != "@s1" && victim != "@s2" && victim != "@o1" && victim != "@o2" && (victim != "root" || (d.node.kind == "obj")) && (len(objs) == 0 || r.Intn(4) == 0)
 	if whole {
 		g.types[victim] = d.node
 		if victim == "root" {
@@ -584,7 +590,7 @@ func runSchemaPos(rep *vh.Report) {
 		case "unknown-rule":
 			var ns []*sNode
 			for _, x := range sortedNodes(sp.valueStart) {
-				if len(sp.ruleName[x]) > 0 && len(x.enum) == 0 { // the renamed rule has a literal value
+				if len(sp.ruleName[x]) > 0 && len(x.enum) == 0 && len(x.extra) == 0 { // the renamed rule has a literal value
 					ns = append(ns, x)
 				}
 			}
@@ -635,6 +641,9 @@ func runSchemaPos(rep *vh.Report) {
 			place = "type"
 		}
 		rep.Stat("schema_" + class + "_in_" + place)
+		if (victim == "@o1" && len(g.types["@a0"].extra) > 0) || (victim == "@o2" && len(g.types["root"].extra) > 0) {
+			rep.Stat("schema_victim_is_inherited_from") // its properties are met as inherited ones first
+		}
 		// Every case runs twice: under distinct file names through Check, and under another naming (all names
 		// empty, only the root's / only the types' name empty, one shared name) through Check / Validate / Example.
 		nm2 := namings[1+r.Intn(len(namings)-1)]
